@@ -213,15 +213,28 @@ Proof.
   now apply vget_vecmat.
 Qed.
 
-(* matrix operand: factor k becomes M A_k; entry j of mode k is the M-combination of the old entries *)
+Lemma cp_shape_set_len : forall m (l : list (mat F)) X, length X = length (nth m l []) ->
+  cp_shape (set_nth m X l) = cp_shape l.
+Proof. unfold cp_shape. induction m; intros [|a l] X HX; simpl in *; auto; try congruence. f_equal. now apply IHm. Qed.
+Lemma cp_shape_remove : forall k (fs : list (mat F)), cp_shape (remove_nth k fs) = remove_nth k (cp_shape fs).
+Proof. unfold cp_shape. induction k; intros [|a l]; simpl; auto. now rewrite IHk. Qed.
+Lemma cp_shape_set : forall k (fs : list (mat F)) X, cp_shape (set_nth k X fs) = set_nth k (length X) (cp_shape fs).
+Proof. unfold cp_shape. induction k; intros [|a l] X; simpl; auto. now rewrite IHk. Qed.
+
+Lemma length_matmul (M A : mat F) : length (matmul Op M A) = length M.
+Proof. apply map_length. Qed.
+
+(* matrix operand: factor k becomes M A_k; mode k gets length M entries; entry j of mode k is the M-combination of the old entries *)
 Theorem cp_mode_dot_matrix w fs M k kd w' fs' idx j :
   cp_mode_dot Op w fs (OpMat M) k kd = Ok (w', fs') ->
   length idx = length fs -> j < length M -> length w <= ncols (nth k fs []) ->
+  cp_shape fs' = set_nth k (length M) (cp_shape fs) /\
   cp_entry Op w' fs' (set_nth k j idx) =
   Sum (length (nth k fs [])) (fun i => mget Op M j i *f cp_entry Op w fs (set_nth k i idx)).
 Proof.
   unfold cp_mode_dot. destruct (k <? length fs) eqn:Hk; [|discriminate]. apply Nat.ltb_lt in Hk.
   destruct (rectb _ M); [|discriminate]. intros E Hi Hj Hc. injection E as <- <-.
+  split; [rewrite cp_shape_set; now rewrite length_matmul|].
   unfold cp_entry.
   rewrite (sumn_ext _ _ (fun r => Sum (length (nth k fs [])) (fun i =>
      mget Op M j i *f (vget Op w r *f (mget Op (nth k fs []) i r *f cp_term Op (remove_nth k fs) (remove_nth k idx) r))))).
@@ -230,14 +243,6 @@ Proof.
   rewrite sumn_exchange. apply sumn_ext. intros i _. rewrite <- sumn_scale_l. apply sumn_ext. intros r _.
   rewrite (cp_term_split k fs (set_nth k i idx) r) by (rewrite ?set_nth_length; lia). rewrite nth_set_nth_same, remove_set_nth by lia. ring.
 Qed.
-
-Lemma cp_shape_set_len : forall m (l : list (mat F)) X, length X = length (nth m l []) ->
-  cp_shape (set_nth m X l) = cp_shape l.
-Proof. unfold cp_shape. induction m; intros [|a l] X HX; simpl in *; auto; try congruence. f_equal. now apply IHm. Qed.
-Lemma cp_shape_remove : forall k (fs : list (mat F)), cp_shape (remove_nth k fs) = remove_nth k (cp_shape fs).
-Proof. unfold cp_shape. induction k; intros [|a l]; simpl; auto. now rewrite IHk. Qed.
-Lemma cp_shape_set : forall k (fs : list (mat F)) X, cp_shape (set_nth k X fs) = set_nth k (length X) (cp_shape fs).
-Proof. unfold cp_shape. induction k; intros [|a l] X; simpl; auto. now rewrite IHk. Qed.
 
 (* vector operand, keep_dim = True: the matrix case with the one-row matrix [v] *)
 Theorem cp_mode_dot_vector_keep w fs v k w' fs' idx :
@@ -253,7 +258,7 @@ Proof.
   - apply cp_shape_set.
   - assert (E : cp_mode_dot Op w fs (OpMat [v]) k true = Ok (w, set_nth k [vecmat Op v (nth k fs [])] fs)).
     { unfold cp_mode_dot. rewrite Hk. cbn [rectb forallb]. rewrite Hv. reflexivity. }
-    rewrite (cp_mode_dot_matrix _ _ _ _ _ _ _ idx 0 E Hi) by (simpl; lia). reflexivity.
+    destruct (cp_mode_dot_matrix _ _ _ _ _ _ _ idx 0 E Hi) as [_ T]; [simpl; lia | exact Hc |]. rewrite T. reflexivity.
 Qed.
 
 (* vector operand, contraction: the mode disappears *)
